@@ -47,6 +47,7 @@ class Knobs:
         self.p_placeholder = 0.0
         self.p_regex_unsup = 0.0
         self.p_regex_flags = 0.0
+        self.p_regex_narrow = 0.0      # negated class that leaves nothing of plain schema.str's own alphabet (C01 only)
 
 
 # ------------------------------------------------------------------ generation (witness-first)
@@ -298,7 +299,19 @@ def _gen_str_regex(r, k):
                 size=r.choice((1, 2, 3)), max_repeat=32, p_unsup=k.p_regex_unsup)
     import re
     for _ in range(16):
-        ast = G.gen_pattern(cfg)
+        if k.p_regex_narrow and r.random() < k.p_regex_narrow:
+            # the complement of digits + letters + " -_" (what plain schema.str draws from): satisfiable only
+            # while regex generation keeps its own, wider alphabet -- no draw is spent where the knob is off
+            items = [{"k": "cat", "c": "w"}, {"k": "lit", "c": " "}, {"k": "lit", "c": "-"}]
+            r.shuffle(items)
+            node = {"k": "class", "neg": True, "items": items}
+            if r.random() < 0.5:
+                mn = r.choice((1, 2, 3))
+                node = {"k": "rep", "body": node, "min": mn, "max": mn, "lazy": False, "form": "{m}"}
+            ast = {"k": "pat", "pre": r.choice((None, "^")), "body": {"k": "seq", "items": [node]},
+                   "post": r.choice((None, "$"))}
+        else:
+            ast = G.gen_pattern(cfg)
         pat = G.render(ast)
         try:
             re.compile(pat)
